@@ -37,6 +37,8 @@ var (
 	RandomGT             = bn256.RandomGT
 	NewSM2P256Point      = sm2ec.NewSM2P256Point
 	P256OrdInverse       = sm2ec.P256OrdInverse
+	P256OrdMul           = sm2ec.P256OrdMul
+	ImplicitSig          = sm2ec.ImplicitSig
 	NewNat               = bigmod.NewNat
 	NewModulus           = bigmod.NewModulus
 )
